@@ -43,7 +43,12 @@ QuickPick(c) == \/ c.wrap = "bare" /\ c.loop \in BaseLoops
                 \/ c.loop \in RxLoops /\ c.place \in {"top", "cb_map", "getter"} /\ c.wrap \in {"bare", "try_catch"} /\ ~c.finite
                 \/ c.place \in {"top", "cb_forEach", "getter", "eval"} /\ c.loop \in BaseLoops
                 \/ c.loop \in {"while", "regex_backtrack"} /\ c.place \in {"function", "cb_sort", "valueOf", "apply", "Function"}
-Cases == {c \in [loop : Loops, place : Places, wrap : Wraps, t : Ts, m : Mems, finite : BOOLEAN] :
+\* cost profile of the steps over the run: uniform (one tick per step), or cheap steps for the first 60 % of T and costly
+\* ones afterwards (the bound on late STEPS is the same: the clock is read every PV instructions whatever they cost)
+Profs == {"uniform", "cheap_then_costly"}
+Cases == {c \in [loop : Loops, place : Places, wrap : Wraps, t : Ts, m : Mems, finite : BOOLEAN, prof : Profs] :
+            /\ (c.prof # "uniform" => ~c.finite /\ c.wrap \in {"bare", "try_catch"} /\ c.loop \in {"while", "for", "dowhile", "recursion", "method_recursion", "forof_growing", "nested_eval_loop", "regex_loop"}
+                                      /\ c.place \in {"top", "function", "cb_forEach", "getter", "eval", "ctor"})
             /\ (Quick => QuickPick(c))
             /\ (c.finite => c.wrap \in {"bare", "try_catch"} /\ c.m = 0)
             /\ (c.loop \in CarryLoops => c.finite /\ c.place = "top" /\ c.wrap = "bare" /\ c.m = 0)
